@@ -103,6 +103,7 @@ class Ctx:
         self.notes: List[str] = []
         self.extra_cov: Dict[str, Any] = {}
         self.known = json.load(open(KNOWN)) if os.path.exists(KNOWN) else {"findings": []}
+        self.partial = False      # development run (--no-mc / --cases / --replay): evidence goes to out/, not evidence/
 
     # ---- known findings
     def classify(self, fails: List[str]) -> Tuple[List[str], List[str]]:
@@ -220,7 +221,9 @@ class Ctx:
             "wall_s": round(time.time() - self.t0, 1),
             "violations": len(self.violations),
         }
-        with open(os.path.join(EVID, f"{self.prop.id}.json"), "w") as fh:
+        evdir = os.path.join(OUT, "evidence-dev") if self.partial else EVID
+        os.makedirs(evdir, exist_ok=True)
+        with open(os.path.join(evdir, f"{self.prop.id}.json"), "w") as fh:
             json.dump(ev, fh, indent=1, default=str)
         for l in lines:
             print(l)
@@ -256,6 +259,7 @@ def main(argv: Optional[List[str]] = None) -> int:
             prop.n_cases = dict(prop.n_cases)
             prop.n_cases[a.tier] = a.cases
         ctx = Ctx(prop, a.tier, seed)
+        ctx.partial = bool(a.no_mc or a.cases is not None or a.replay)
         if a.replay:
             payload = json.load(open(a.replay))
             case = payload["case"]
